@@ -221,12 +221,47 @@ type seed struct {
 	// derived
 	varints []model.Field // u63, count, len, wlen, wcount fields
 	leaves  []model.Field // u63 / count leaves (consistent replacement)
+	counts  []model.Field // element-count leaves of lists (LEB128 "count", go-wire "wcount")
 }
 
 var lebBoundary = []uint64{0, 1, 2, 127, 128, 1 << 16, 1 << 20, 1<<31 - 1, 1 << 31, 1<<63 - 1, 1 << 63, 1<<64 - 1}
 var wireBoundary = []int64{0, 1, 2, 255, 256, 1 << 16, 1 << 20, 22020098, 22020099, 1<<31 - 1, 1 << 31, 1<<63 - 1, -1, -(1 << 31)}
 
-func uvarintAny(v uint64) []byte { return model.Uvarint(v) }
+// "size computation wraps" probes: a guard of the shape count*elementSize <= remaining, computed
+// in 32 (or 31, or 64) bits, is passed by count = ceil(2^k/m) for element size m because the
+// product wraps to a value below m. For every m in 2..128: ceil(2^32/m), ceil(2^32/m)+1 and
+// ceil(2^31/m); for go-wire counts (a 64-bit int) also ceil(2^64/m) and ceil(2^63/m) where they fit.
+const wrapPad = 128 // zero bytes inserted after the count so that a wrapped bound (< m <= 128, +m for the +1 value) is satisfied
+
+func wrapValues(wire bool) []uint64 {
+	set := map[uint64]bool{}
+	for m := uint64(2); m <= 128; m++ {
+		c32 := (1<<32-1)/m + 1
+		set[c32], set[c32+1] = true, true
+		set[(1<<31-1)/m+1] = true
+		if wire {
+			if c64 := (1<<64-1)/m + 1; c64 <= 1<<63-1 {
+				set[c64] = true
+			}
+			set[(1<<63-1)/m+1] = true
+		}
+	}
+	var out []uint64
+	for v := range set {
+		out = append(out, v)
+	}
+	sort.Slice(out, func(i, j int) bool { return out[i] < out[j] })
+	return out
+}
+
+var wrapLEB, wrapWire = wrapValues(false), wrapValues(true)
+
+func wrapVals(f model.Field) []uint64 {
+	if f.Kind == "wcount" {
+		return wrapWire
+	}
+	return wrapLEB
+}
 
 func mkSeed(name, kind string, quick bool, root *model.Node) *seed {
 	s := &seed{name: name, kind: kind, quick: quick, root: root, bytes: root.Bytes()}
@@ -237,6 +272,9 @@ func mkSeed(name, kind string, quick bool, root *model.Node) *seed {
 		}
 		if f.Kind == "u63" || f.Kind == "count" {
 			s.leaves = append(s.leaves, f)
+		}
+		if f.Kind == "count" || f.Kind == "wcount" {
+			s.counts = append(s.counts, f)
 		}
 	}
 	return s
@@ -354,10 +392,11 @@ const (
 	cLenAppend
 	cShort
 	cShort1
+	cWrap
 	nClasses
 )
 
-var className = []string{"seed", "prefix", "substitution", "varint-raw", "varint-lengths-fixed", "prefix+byte-at-length-field", "all-strings-len<=2", "all-strings-len<=1"}
+var className = []string{"seed", "prefix", "substitution", "varint-raw", "varint-lengths-fixed", "prefix+byte-at-length-field", "all-strings-len<=2", "all-strings-len<=1", "count-product-wraps"}
 
 func boundaryCount(f model.Field) int {
 	if f.Kind == "wlen" || f.Kind == "wcount" {
@@ -396,6 +435,12 @@ func (s *seed) count(class int) int {
 		return 1 + 256 + 65536
 	case cShort1:
 		return 1 + 256
+	case cWrap:
+		n := 0
+		for _, f := range s.counts {
+			n += 2 * len(wrapVals(f))
+		}
+		return n
 	}
 	return 0
 }
@@ -439,6 +484,31 @@ func (s *seed) input(class, i int) ([]byte, string) {
 		f := s.varints[i/256]
 		out := append(append([]byte{}, b[:f.Off]...), byte(i%256))
 		return out, fmt.Sprintf("prefix up to field %s at %d, then byte %#02x", f.Name, f.Off, i%256)
+	case cWrap:
+		for _, f := range s.counts {
+			vals := wrapVals(f)
+			if i >= 2*len(vals) {
+				i -= 2 * len(vals)
+				continue
+			}
+			v, padded := vals[i/2], i%2 == 1
+			var nb []byte
+			if f.Kind == "wcount" {
+				nb = model.WireVarint(int64(v))
+			} else {
+				nb = model.Uvarint(v)
+			}
+			desc := fmt.Sprintf("count field %s set to %d (wraps a 32/31/64-bit count*elementSize), enclosing lengths re-computed", f.Name, v)
+			if padded {
+				nb = append(nb, make([]byte, wrapPad)...)
+				desc += fmt.Sprintf(", %d zero bytes inserted after the count", wrapPad)
+			}
+			old := f.Node.Raw
+			f.Node.Raw = nb
+			out := s.root.Bytes()
+			f.Node.Raw = old
+			return out, desc
+		}
 	case cShort, cShort1:
 		switch {
 		case i == 0:
@@ -462,10 +532,13 @@ type target struct {
 }
 
 func targets(ss []*seed, thorough bool) []target {
-	all := []int{cSeed, cPrefix, cSubst, cVarRaw, cVarFix, cLenAppend}
-	cheap := []int{cSeed, cPrefix, cVarRaw, cVarFix, cLenAppend}
+	all := []int{cSeed, cPrefix, cSubst, cVarRaw, cVarFix, cLenAppend, cWrap}
+	cheap := []int{cSeed, cPrefix, cVarRaw, cVarFix, cLenAppend, cWrap}
 	wrapped := []int{cSeed, cPrefix, cVarRaw, cVarFix}
-	wireAll := []int{cSeed, cPrefix, cSubst, cVarRaw, cLenAppend}
+	if thorough {
+		wrapped = append(wrapped, cWrap) // quick: the wrap probes go to the direct decoders only
+	}
+	wireAll := []int{cSeed, cPrefix, cSubst, cVarRaw, cLenAppend, cWrap}
 	var ts []target
 	shortDone := map[int]bool{}
 	for si, s := range ss {
@@ -540,7 +613,7 @@ func textClasses(thorough bool) []int {
 
 type req struct {
 	T, C, From, To int    // target index, class, input index range
-	Trace          string // if set, the worker's stderr goes to this file while the item runs
+	Trace          string // if set: directory in which the worker keeps its stderr (one file per worker process, restarted for every item)
 }
 
 type vio struct {
@@ -766,6 +839,37 @@ func warmup() {
 	}
 }
 
+var traceF *os.File
+
+func traceHeader(q req) string { return fmt.Sprintf("ITEM %d %d %d", q.T, q.C, q.From) }
+
+// traceBegin keeps the worker's stderr in a file of its own that is restarted for every
+// single-input item: a fatal runtime error (out of memory) cannot be recovered, its complete
+// trace is then found under the header of the item that was in flight.
+func traceBegin(dir, header string) {
+	if traceF == nil {
+		f, err := os.OpenFile(filepath.Join(dir, fmt.Sprintf("w%d.txt", os.Getpid())), os.O_CREATE|os.O_WRONLY|os.O_APPEND|os.O_TRUNC, 0o644)
+		if err != nil {
+			return
+		}
+		traceF = f
+		syscall.Dup2(int(f.Fd()), 2)
+	}
+	traceF.Truncate(0)
+	traceF.WriteString(header + "\n")
+}
+
+func findTrace(dir, header string) string {
+	es, _ := os.ReadDir(dir)
+	for _, e := range es {
+		b, err := os.ReadFile(filepath.Join(dir, e.Name()))
+		if err == nil && strings.HasPrefix(string(b), header+"\n") {
+			return string(b)
+		}
+	}
+	return ""
+}
+
 func serve(raw json.RawMessage) interface{} {
 	var q req
 	if err := json.Unmarshal(raw, &q); err != nil {
@@ -775,13 +879,7 @@ func serve(raw json.RawMessage) interface{} {
 	e := &entries[t.e]
 	s := wSeeds[t.s]
 	if q.Trace != "" {
-		// a fatal runtime error (out of memory) cannot be recovered; keep its complete trace
-		if f, err := os.OpenFile(q.Trace, os.O_CREATE|os.O_WRONLY|os.O_APPEND, 0o644); err == nil {
-			if saved, err := syscall.Dup(2); err == nil {
-				syscall.Dup2(int(f.Fd()), 2)
-				defer func() { syscall.Dup2(saved, 2); syscall.Close(saved); f.Close() }()
-			}
-		}
+		traceBegin(q.Trace, traceHeader(q))
 	}
 	out := resp{Out: map[string]int{}}
 	var nt []byte
@@ -908,11 +1006,11 @@ func main() {
 			n := wSeeds[t.s].count(c)
 			perClass[className[c]] += n
 			perEntry[entries[t.e].name] += n
-			if c == cVarRaw || c == cVarFix {
+			if c == cVarRaw || c == cVarFix || c == cWrap {
 				// attacker-chosen sizes live here: one input per item, so that a worker killed by the
 				// memory limit is attributed to exactly one input, with its trace kept
 				for i := 0; i < n; i++ {
-					reqs = append(reqs, req{T: ti, C: c, From: i, To: i + 1, Trace: filepath.Join(traceDir, fmt.Sprintf("%d-%d-%d.txt", ti, c, i))})
+					reqs = append(reqs, req{T: ti, C: c, From: i, To: i + 1, Trace: traceDir})
 				}
 				continue
 			}
@@ -925,7 +1023,7 @@ func main() {
 			}
 		}
 	}
-	pool := par.NewPool(0, 200)
+	pool := par.NewPool(0, 2000)
 	pool.MemKB = 3 << 20 // 3 GiB of address space per worker
 	found := map[string]*finding{}
 	nontriv := map[uint64]struct{}{}
@@ -947,7 +1045,7 @@ func main() {
 		if r.Died {
 			if rq.To-rq.From > 1 && singles != nil {
 				for i := rq.From; i < rq.To; i++ {
-					*singles = append(*singles, req{rq.T, rq.C, i, i + 1, filepath.Join(traceDir, fmt.Sprintf("%d-%d-%d.txt", rq.T, rq.C, i))})
+					*singles = append(*singles, req{rq.T, rq.C, i, i + 1, traceDir})
 				}
 				return
 			}
@@ -956,8 +1054,10 @@ func main() {
 			run.Add("evaluations", 1)
 			run.Add("worker_deaths", 1)
 			trace := r.Stderr
-			if b, err := os.ReadFile(rq.Trace); err == nil && len(b) > 0 {
-				trace = string(b)
+			if rq.Trace != "" {
+				if t := findTrace(rq.Trace, traceHeader(rq)); t != "" {
+					trace = t
+				}
 			}
 			key := deathKey(entries[t.e].name, trace)
 			outcomes["DIED "+key]++
@@ -1038,7 +1138,7 @@ func main() {
 	run.Set("max_alloc_over_bound_ratio", maxRatio)
 	run.Set("alloc_bound", "64*len(bytes handed to the decoder) + 65536")
 	run.Set("distinct_nontrivial", len(nontriv))
-	run.Set("rule", "inputs are enumerated from the corpus (samples): every prefix, every single-byte substitution (position x 255 other values), every varint/length/count field replaced by each of 12 (LEB128) or 14 (go-wire) boundary values without and with re-computed enclosing lengths, every prefix ending before a length/count field followed by each of 256 bytes, all 65793 strings of length <= 2 per decoder; text-level prefixes (and substitutions in thorough) of the hex / JSON forms. An input is non-trivial if the decoder returned a value or failed after the syntax / first flag byte was accepted (not a hex, JSON, serialization-flag or message-type-byte rejection); distinct_nontrivial counts distinct (decoder, input bytes) among those (64-bit hashes)")
+	run.Set("rule", "inputs are enumerated from the corpus (samples): every prefix, every single-byte substitution (position x 255 other values), every varint/length/count field replaced by each of 12 (LEB128) or 14 (go-wire) boundary values without and with re-computed enclosing lengths, every list-count field (inputs, outputs, varstr lists, supLinks, block transactions, message lists) set to each of the ~380 'count*elementSize wraps' values ceil(2^32/m), ceil(2^32/m)+1, ceil(2^31/m) for m in 2..128 (go-wire counts: also ceil(2^64/m), ceil(2^63/m)) with enclosing lengths re-computed, without and with 128 zero bytes inserted after the count, every prefix ending before a length/count field followed by each of 256 bytes, all 65793 strings of length <= 2 per decoder; text-level prefixes (and substitutions in thorough) of the hex / JSON forms. An input is non-trivial if the decoder returned a value or failed after the syntax / first flag byte was accepted (not a hex, JSON, serialization-flag or message-type-byte rejection); distinct_nontrivial counts distinct (decoder, input bytes) among those (64-bit hashes)")
 	run.Assume("allocation is measured as the runtime.MemStats.TotalAlloc delta around the decode call in a single-goroutine worker; the bound 64*len+64KiB is the property's 'proportional' with generous constants")
 	run.Assume("go-wire (tendermint/go-amino v0.6.2) is part of the decoding path of P2P messages and is included in the measurement; its limit argument is chosen by the reactors")
 	run.Assume("workers run under ulimit -v 3GiB; an allocation that exceeds it kills the worker and is attributed to the input in flight")
